@@ -54,10 +54,10 @@ PLANS["C01"] = {
              "distinct = digest of (part, length, pattern or position list); non-trivial = has both a set and an unset bit, or length <= 1"),
     "legs": {
         "quick": [leg("rel", 16, "small"), leg("dbg", 16, "small", scale=1), leg("rel", 8, "boundary"), leg("dbg", 8, "boundary"),
-                  leg("rel-nobmi", 8, "boundary"), leg("rel", 4, "regime", weight=5), leg("rel-nobmi", 4, "regime", weight=5),
+                  leg("rel-nobmi", 8, "boundary"), leg("dbg-nobmi", 8, "boundary"), leg("rel", 4, "regime", weight=5), leg("rel-nobmi", 4, "regime", weight=5),
                   leg("dbg", 4, "regime", weight=5), leg("miri", 4, "small", of=4096, budget=2500), leg("miri-native", 2, "small", of=4096, budget=2500)],
         "thorough": [leg("rel", 16, "small"), leg("dbg", 16, "small"), leg("rel-nobmi", 16, "small"), leg("rel", 16, "boundary"), leg("dbg", 16, "boundary"),
-                     leg("rel-nobmi", 16, "boundary"), leg("rel", 10, "regime", weight=5), leg("rel-nobmi", 10, "regime", weight=5),
+                     leg("rel-nobmi", 16, "boundary"), leg("dbg-nobmi", 16, "boundary"), leg("dbg-nobmi", 10, "regime", weight=5), leg("rel", 10, "regime", weight=5), leg("rel-nobmi", 10, "regime", weight=5),
                      leg("dbg", 10, "regime", weight=5), leg("miri", 10, "small", of=2048, budget=20000), leg("miri-native", 6, "small", of=2048, budget=20000)],
     },
     "require": {
@@ -86,8 +86,8 @@ PLANS["C17"] = {
              "select on every 1-bit and 2-bit word, every byte value in every byte position, every 16-bit pattern in each quarter and random words x every legal rank, in a BMI2 build and in a "
              "portable build; distinct = digest of (primitive, argument class or word); non-trivial = word has a set bit / every listed case"),
     "legs": {
-        "quick": [leg("rel", 16), leg("rel-nobmi", 16), leg("dbg", 8, "rw"), leg("bounds", 8, "select"), leg("miri", 8, "select_miri", budget=3000), leg("miri", 4, "masks", scale=200, budget=3000)],
-        "thorough": [leg("rel", 16), leg("rel-nobmi", 16), leg("dbg", 16), leg("bounds", 16), leg("miri", 16, "select_miri", budget=20000), leg("miri", 8, "masks", scale=100, budget=20000),
+        "quick": [leg("rel", 16), leg("rel-nobmi", 16), leg("dbg", 8, "rw"), leg("dbg-nobmi", 8, "select"), leg("bounds", 8, "select"), leg("miri", 8, "select_miri", budget=3000), leg("miri", 4, "masks", scale=200, budget=3000)],
+        "thorough": [leg("rel", 16), leg("rel-nobmi", 16), leg("dbg", 16), leg("dbg-nobmi", 16), leg("bounds", 16), leg("miri", 16, "select_miri", budget=20000), leg("miri", 8, "masks", scale=100, budget=20000),
                      leg("miri-native", 8, "select_miri", budget=20000)],
     },
     "require": {
@@ -446,11 +446,11 @@ PLANS["C08"] = {
              "fatal signal, or the sticky flag of the bounds hooks in the unchecked accessors; other properties' workloads are replayed under ASan / valgrind / bounds hooks for process-level verdicts; "
              "distinct = (method, argument class) pairs and (part, instance) digests"),
     "legs": {
-        "quick": [leg("rel", 8), leg("dbg", 8), leg("rel-nobmi", 4), leg("bounds", 8), leg("asan", 8), leg("valgrind", 8, scale=8),
+        "quick": [leg("rel", 8), leg("dbg", 8), leg("rel-nobmi", 4), leg("dbg-nobmi", 4), leg("bounds", 8), leg("asan", 8), leg("valgrind", 8, scale=8),
                   leg("miri", 5, "raw", of=4000, budget=1500), leg("miri-wrap", 5, "bv", of=4000, budget=1500), leg("miri-wrap", 3, "sparse", of=4000, budget=1200), leg("miri-wrap", 3, "rl", of=4000, budget=800),
                   leg("miri", 2, "wm", of=3000, budget=1200), leg("miri-native", 2, "bv", of=4000, budget=1200),
                   leg("asan", 4, driver="c10", part="rand"), leg("asan", 4, driver="c01", part="boundary"), leg("asan", 2, driver="c09"), leg("bounds", 4, driver="c10", part="rand"), leg("bounds", 4, driver="c01", part="regime")],
-        "thorough": [leg("rel", 16), leg("dbg", 16), leg("rel-nobmi", 16), leg("bounds", 16), leg("asan", 16), leg("valgrind", 16, scale=4),
+        "thorough": [leg("rel", 16), leg("dbg", 16), leg("rel-nobmi", 16), leg("dbg-nobmi", 16), leg("bounds", 16), leg("asan", 16), leg("valgrind", 16, scale=4),
                      leg("miri", 8, "raw", of=40000, budget=10000), leg("miri-wrap", 8, "bv", of=40000, budget=10000), leg("miri-wrap", 6, "sparse", of=40000, budget=8000), leg("miri-wrap", 6, "rl", of=40000, budget=8000),
                      leg("miri", 4, "wm", of=30000, budget=8000), leg("miri-native", 4, "bv", of=40000, budget=8000), leg("miri-native", 4, "sparse", of=40000, budget=8000),
                      leg("asan", 8, driver="c10", part="rand"), leg("asan", 8, driver="c10", part="exh", scale=2), leg("asan", 8, driver="c01"), leg("asan", 8, driver="c02"), leg("asan", 8, driver="c03"),
